@@ -49,7 +49,7 @@ from vf.core.runner import Ctx
 PROPERTY = "C11"
 LEVEL = "exploration"
 ENGINE = "E1-SEQ"
-SHARDS = {"quick": 4, "thorough": 16}
+SHARDS = {"quick": 8, "thorough": 16}
 RULE = (
     "programs: all step lists of length 1..3 (quick) / 1..4 (thorough) over payload sizes {8,700,3000} (+ zero-row "
     "and 70000-byte steps in fixed extra programs) x log pattern {none, one log per step} x finish {separate tick, same "
@@ -79,6 +79,7 @@ ASSUMPTIONS = [
 ]
 
 BIG = 10**9
+MULTI = "requires one data batch per response"
 
 
 # ------------------------------------------------------------------------------------------ programs
@@ -201,29 +202,13 @@ def check_turns(ctx: Ctx, log: list[dict[str, Any]], cap: Any, codec: str, rep: 
             ctx.fail(f"turn-http-status:{e['status']}", f"turn {e['path']} answered HTTP {e['status']}", rep)
             part.append(-1)
             continue
-        dec = Z.decode_body(e)
-        t = Z.turn_cycles(dec)
-        part.append(len(t["data"]))
+        j = Z.judge_turn(e, cap)
+        part.append(j["n"])
         ctx.extra["turns"] += 1
-        ctx.extra["max_batches_in_turn"] = max(ctx.extra["max_batches_in_turn"], len(t["data"]))
-        if cap is None or len(t["data"]) < 2:
-            continue
-        start_last = t["data"][-1][0]
-        rel = start_last - t["data_stream_start"]
-        tail_plain = len(dec) - start_last
-        enc = e["headers"].get("content-encoding")
-        slack = 0 if not enc else 64 + len(dec) // 100
-        ctx.extra["overshoot_checked"] += 1
-        if rel > cap and len(e["body"]) > cap + tail_plain + slack:
-            kind = "init" if e["path"].endswith("/init") else "continuation"
-            ctx.fail(
-                f"turn-overshoot:{kind}:{'compressed' if enc else 'identity'}",
-                f"{kind} turn ({enc or 'identity'}) body is {len(e['body'])} wire bytes / {len(dec)} decoded with "
-                f"{len(t['data'])} data batches under max_response_bytes={cap}: the last produce cycle starts at "
-                f"data-stream offset {rel} > cap and the wire body exceeds cap + last cycle ({tail_plain} B) by "
-                f"{len(e['body']) - cap - tail_plain} bytes",
-                rep,
-            )
+        ctx.extra["max_batches_in_turn"] = max(ctx.extra["max_batches_in_turn"], j["n"])
+        ctx.extra["overshoot_checked"] += int(j["checked"])
+        if j["violation"] is not None:
+            ctx.fail(f"turn-overshoot:{j['violation'][0]}", j["violation"][1], rep)
     return tuple(part)
 
 
@@ -321,6 +306,12 @@ def run_resume(ctx: Ctx, case: dict[str, Any], sample: bool = False) -> None:
     try:
         got, toks = collect_tokens(a, method, spec, hdr)
     except Exception as e:  # noqa: BLE001
+        if isinstance(e, RuntimeError) and MULTI in str(e):
+            # documented limitation of next_with_token (a response carried several data batches); the overshoot that
+            # caused it is judged by check_turns in the chunk phase
+            ctx.extra["nwt_multi_refusals"] += 1
+            ctx.case(outcome="nwt-multi-refused")
+            return
         ctx.fail(f"resume:origin-error:{type(e).__name__}:{codec}", f"next_with_token loop raised {e!r} for {brief(case)}", case)
         ctx.case(outcome=("exc", type(e).__name__))
         return
@@ -347,13 +338,17 @@ def run_resume(ctx: Ctx, case: dict[str, Any], sample: bool = False) -> None:
             for via in vias:
                 if only and only != [i, mode, via]:
                     continue
-                if via == "seek" and mode == "other-cold":
-                    pass  # the fresh init on B creates a different stream; the sought stream is still cold on B
+                if via == "nwt" and bcap not in (None, 1):
+                    continue  # a resuming worker that buffers several batches per turn refuses next_with_token by design
                 try:
                     r = resume_once(w, method, spec, hdr, tok, via)
                     err = None
                 except Exception as e:  # noqa: BLE001
                     r, err = None, e
+                if isinstance(err, RuntimeError) and MULTI in str(err):
+                    ctx.extra["nwt_multi_refusals"] += 1
+                    ctx.case(outcome="nwt-multi-refused")
+                    continue
                 rep = dict(case, only=[i, mode, via])
                 if err is not None:
                     ctx.fail(
@@ -425,7 +420,7 @@ def n_requests(spec: dict[str, Any], cap: Any) -> int:
 
 def run(ctx: Ctx) -> None:
     ctx.extra.update({"turns": 0, "max_batches_in_turn": 0, "overshoot_checked": 0, "log_divergences": 0, "resumes": 0,
-                      "routings": 0, "programs": 0, "max_caps_per_program": 0})
+                      "routings": 0, "programs": 0, "max_caps_per_program": 0, "nwt_multi_refusals": 0})
     progs = programs(ctx)
     codecs = ("identity", "zstd", "gzip")
     n_samples = 0
@@ -478,5 +473,5 @@ def run(ctx: Ctx) -> None:
 
 def replay(ctx: Ctx, case: dict[str, Any]) -> None:
     ctx.extra.update({"turns": 0, "max_batches_in_turn": 0, "overshoot_checked": 0, "log_divergences": 0, "resumes": 0,
-                      "routings": 0, "programs": 0, "max_caps_per_program": 0})
+                      "routings": 0, "programs": 0, "max_caps_per_program": 0, "nwt_multi_refusals": 0})
     {"chunk": run_chunk, "resume": run_resume, "route": run_route}[case["phase"]](ctx, case)
